@@ -464,9 +464,16 @@ class PatchSet(object):
 
 def innermost_phyclone_frame(e):
     where = ""
-    for fr in traceback.extract_tb(e.__traceback__):
+    frames = traceback.extract_tb(e.__traceback__)
+    for fr in frames:
         if "/phyclone/" in fr.filename:
             where = "%s:%s" % (fr.filename.split("phyclone/")[-1], fr.name)
+    injected = isinstance(e, WorkerFailure) or (isinstance(e, OSError) and getattr(e, "errno", None) == errno.ENOSPC)
+    if frames and not injected and os.path.join("sim", "") in frames[-1].filename and "/phyclone/" not in frames[-1].filename:
+        # the exception was raised by harness code (a wrapper that no longer fits the code under test): never a verdict
+        from sim import runner
+
+        raise runner.HarnessError("harness wrapper failed at %s:%d: %s: %s" % (frames[-1].filename, frames[-1].lineno, type(e).__name__, e))
     return where
 
 
@@ -559,25 +566,25 @@ def run_pipeline(spec):
                     hist["main_iters_by_chain"][phase["chain"]] += 1
             return orig_clear()
 
-        def w_append(i, timer, trace, tree, tree_dist):
+        def w_append(i, timer, trace, tree, *a, **k):
             bad = monitors.wellformed(tree)
             hist["appended"].append({"iter": i, "wellformed": bad[:1], "n_data": len(tree.data)})
-            return orig_append(i, timer, trace, tree, tree_dist)
+            return orig_append(i, timer, trace, tree, *a, **k)
 
         conc_ctx = {}
 
-        def w_sample(self, old_value, num_clusters, num_data_points):
-            new = orig_sample(self, old_value, num_clusters, num_data_points)
+        def w_sample(self, old_value, num_clusters, num_data_points, *a, **k):
+            new = orig_sample(self, old_value, num_clusters, num_data_points, *a, **k)
             conc_ctx["args"] = (float(old_value), int(num_clusters), int(num_data_points), float(new), float(self.a), float(self.b))
             return new
 
-        def w_upd(conc_sampler, tree, tree_dist):
+        def w_upd(conc_sampler, tree, tree_dist, *a, **k):
             f = bridge.to_forest(tree)
             K = len(f.own)
             n = sum(len(o) for o in f.own)
             before = float(tree_dist.prior.alpha)
             conc_ctx.pop("args", None)
-            orig_upd(conc_sampler, tree, tree_dist)
+            orig_upd(conc_sampler, tree, tree_dist, *a, **k)
             rec = {"K": K, "n": n, "before": before, "after": float(tree_dist.prior.alpha), "log_alpha": float(tree_dist.prior.log_alpha),
                    "args": conc_ctx.get("args")}
             hist["conc_calls"].append(rec)
